@@ -694,9 +694,12 @@ impl<F: Read + Write + Seek> Package<F> {
         let long_string_refs = self.string_pool.long_string_refs();
         let table = Table::new(table_name.clone(), columns, long_string_refs);
         self.tables.insert(table_name, table);
-        self.insert_rows(
-            Insert::into(VALIDATION_TABLE_NAME).rows(validation_rows),
-        )?;
+        // Not every MSI file has a _Validation table.
+        if self.tables.contains_key(VALIDATION_TABLE_NAME) {
+            self.insert_rows(
+                Insert::into(VALIDATION_TABLE_NAME).rows(validation_rows),
+            )?;
+        }
         Ok(())
     }
 
@@ -716,10 +719,12 @@ impl<F: Read + Write + Seek> Package<F> {
         if self.comp().exists(&stream_name) {
             self.comp_mut().remove_stream(&stream_name)?;
         }
-        self.delete_rows(
-            Delete::from(VALIDATION_TABLE_NAME)
-                .with(Expr::col("Table").eq(Expr::string(table_name))),
-        )?;
+        if self.tables.contains_key(VALIDATION_TABLE_NAME) {
+            self.delete_rows(
+                Delete::from(VALIDATION_TABLE_NAME)
+                    .with(Expr::col("Table").eq(Expr::string(table_name))),
+            )?;
+        }
         self.delete_rows(
             Delete::from(COLUMNS_TABLE_NAME)
                 .with(Expr::col("Table").eq(Expr::string(table_name))),
